@@ -14,9 +14,14 @@ for d in "$here"/seeded/${1:-*}/; do
   name=$(basename "$d")
   [ -f "$d/patch.diff" ] || continue
   args=$(python3 -c "import json,sys; m=json.load(open('$d/meta.json')); print(' '.join(m['check_run'].split()[2:]))")
-  git -C "$lane" checkout -q -- . ; git -C "$lane" clean -qfd src 2>/dev/null
-  if ! git -C "$lane" apply "$d/patch.diff" 2>/dev/null && ! git -C "$lane" apply --3way "$d/patch.diff" 2>/dev/null; then
-    echo "$name | $args | PATCH-DOES-NOT-APPLY" >> "$tmpout"; continue
+  git -C "$lane" reset -q --hard HEAD; git -C "$lane" clean -qfd src 2>/dev/null
+  if ! git -C "$lane" apply "$d/patch.diff" 2>/dev/null; then
+    if ! git -C "$lane" apply --3way "$d/patch.diff" 2>/dev/null || git -C "$lane" diff --name-only --diff-filter=U | grep -q .; then
+      git -C "$lane" reset -q --hard HEAD
+      was=$(python3 -c "import json; print(json.load(open('$d/meta.json')).get('confirmed_by_me',{}).get('head','?'))")
+      echo "$name | $args | PATCH-DOES-NOT-APPLY to $head (the code it changes was rewritten by a later fix; confirmed and reported at $was)" >> "$tmpout"; tail -1 "$tmpout"; continue
+    fi
+    git -C "$lane" reset -q   # keep the merged working tree, drop the index state
   fi
   log=$(cd "$here" && VERIF_REPO="$lane" VERIF_CACHE="$cache" VERIF_EVIDENCE_DIR="$cache/ev" VERIF_REPLAY_DIR="$cache/rp" ./check $args 2>&1)
   rc=$?
